@@ -35,7 +35,7 @@ type BlkFn = Box<dyn FnOnce() -> BufResult<usize, TBuf> + Send>;
 type ReadOp = Read<TBuf, SharedFd<OwnedFd>>;
 type AccOp = AcceptMulti<SharedFd<UnixListener>>;
 type BlkOp = Asyncify<BlkFn, TBuf>;
-type ZcOp = SendZc<TBuf, SharedFd<std::net::TcpStream>>;
+type ZcOp = SendZc<TBuf, SharedFd<socket2::Socket>>;
 
 enum AnyKey {
     Read(Key<ReadOp>),
@@ -112,6 +112,7 @@ struct Ctx {
     ops: Vec<OpState>,
     ptr2op: HashMap<u64, String>,
     zc_peers: Vec<std::net::TcpStream>,
+    zc_failing: bool,
     trace: Vec<Ev>,
     bufid2op: HashMap<u64, String>,
 }
@@ -308,6 +309,7 @@ fn run_case(case: &Value, rep: &mut Report, trace_out: &mut Vec<String>, settle_
             .collect(),
         ptr2op: HashMap::new(),
         zc_peers: vec![],
+        zc_failing: false,
         trace: vec![],
         bufid2op: HashMap::new(),
     };
@@ -396,10 +398,19 @@ fn run_case(case: &Value, rep: &mut Report, trace_out: &mut Vec<String>, settle_
                     }
                     "zc" => {
                         // zero-copy send over loopback TCP: result completion (MORE) + notification (final)
-                        let l = std::net::TcpListener::bind("127.0.0.1:0").expect("bind");
-                        let c = std::net::TcpStream::connect(l.local_addr().unwrap()).expect("connect");
-                        let (srv, _) = l.accept().expect("accept");
-                        ctx.zc_peers.push(srv);
+                        // every second behaviour sends on an unconnected UDP socket instead: the kernel fails the
+                        // send (EDESTADDRREQ) but still posts two completions (error flagged MORE, then the notification)
+                        let failing = rep.cases % 2 == 1;
+                        ctx.zc_failing = failing;
+                        let c: socket2::Socket = if failing {
+                            std::net::UdpSocket::bind("127.0.0.1:0").expect("bind udp").into()
+                        } else {
+                            let l = std::net::TcpListener::bind("127.0.0.1:0").expect("bind");
+                            let c = std::net::TcpStream::connect(l.local_addr().unwrap()).expect("connect");
+                            let (srv, _) = l.accept().expect("accept");
+                            ctx.zc_peers.push(srv);
+                            c.into()
+                        };
                         let payload: Vec<u8> = (0..6u8).map(|i| 0xC0 | i).collect();
                         let buf = TBuf::from_vec(oi as u64 + 1, payload);
                         match d.push(SendZc::new(SharedFd::new(c), buf, rustix::net::SendFlags::empty())) {
@@ -538,7 +549,9 @@ fn run_case(case: &Value, rep: &mut Report, trace_out: &mut Vec<String>, settle_
                                 buf.taken = true;
                                 // the send result travels in the first (MORE) completion; the final one is the notification
                                 let sent = first.map(|BufResult(r, _)| r);
+                                let zc_failing = ctx.zc_failing;
                                 let ok = match (&sent, &res) {
+                                    (Some(Err(e)), _) if zc_failing => e.raw_os_error() == Some(libc::EDESTADDRREQ) || cancel_req,
                                     (Some(Ok(n)), _) => *n == 6 && buf.v.len() == 6 && buf.v.iter().enumerate().all(|(i, b)| *b == 0xC0 | i as u8),
                                     (_, Err(e)) => cancel_req && e.raw_os_error() == Some(libc::ECANCELED),
                                     _ => res.is_ok(),
